@@ -189,7 +189,7 @@ var profReset = register(&Profile{
 })
 
 var resetWeights = Weights{"write-new": 14, "modify": 12, "remove-file": 8, "rmdir": 6, "recreate": 2, "add": 18, "rm": 3, "commit": 20,
-	"reset": 22, "reset-invalid": 5, "switch": 4, "switch-c": 3, "branch": 2}
+	"reset": 22, "reset-invalid": 5, "copydir": 3, "revert": 4, "switch": 4, "switch-c": 3, "branch": 2}
 
 // ---------------------------------------------------------------- C09
 
